@@ -64,6 +64,7 @@ type Op struct {
 	KN     int    `json:"kn,omitempty"`     // import: 1000 + j (seeded key j); use: signing key (created key number or imported id)
 	M      string `json:"m,omitempty"`      // use: method
 	Var    string `json:"var,omitempty"`    // the token is presented in this variant spelling (see spelling.go)
+	PG     int    `json:"pg,omitempty"`     // open: 0 = the passphrase of the profile version the instance was made with; k>0 = the passphrase of version k-1
 }
 
 // Obs is what the implementation did for one op, plus the state of the shared storage afterwards.
@@ -74,6 +75,7 @@ type Obs struct {
 	Rows [][3]int `json:"rows"` // (user, content id, value) of every profile's content store, sorted
 	Keys []int    `json:"keys"` // owner (user whose master key opens it) of key k, in creation order
 	Err  string   `json:"err,omitempty"`
+	Pass bool     `json:"pass,omitempty"` // open: the passphrase presented is the one the instance's profile version is locked with
 }
 
 func isTokenOp(k string) bool {
@@ -138,21 +140,36 @@ type world struct {
 	remote  map[int]int // user -> key server number (remote-KMS profiles)
 	servers map[int]*keyServer
 	owners  map[int]kms.KeyManager
+	ownersAll map[int][]kms.KeyManager
 	// store manager entries (profile -> persisted at, ttl), for the ambiguity check of wallet.New
 	spers map[int]*grant
 	// provenance of content values
 	addedBy map[int]int
 	ambig   bool
+	// profile versions (CreateProfile = version 0, every UpdateProfile one more): master lock of each version, the
+	// version an instance was made with
+	psnap  map[int][]string
+	igen   []int
+	ownerN map[int]int
 }
 
 func (w *world) userName(u int) string { return fmt.Sprintf("c19-%s-%d-u%d", runNonce, w.id, u) }
 func pass(u int) string                { return fmt.Sprintf("correct horse %d", u) }
 
+// passG: the passphrase of version g of profile u
+func passG(u, g int) string {
+	if g == 0 {
+		return pass(u)
+	}
+
+	return fmt.Sprintf("correct horse %d version %d", u, g)
+}
+
 func newWorldID() uint64 { return atomic.AddUint64(&worldCounter, 1) }
 
 func newWorld() *world {
 	w := &world{id: newWorldID(), owners: map[int]kms.KeyManager{}, spers: map[int]*grant{},
-		addedBy: map[int]int{}, labels: map[labelKey]int{}}
+		addedBy: map[int]int{}, labels: map[labelKey]int{}, psnap: map[int][]string{}, ownerN: map[int]int{}}
 	w.inner = keepProvider{mem.NewProvider()}
 	w.rec = hx.NewRecProvider(w.inner)
 
@@ -195,12 +212,8 @@ type kmsProv struct {
 func (k kmsProv) StorageProvider() kms.Store     { return k.s }
 func (k kmsProv) SecretLock() secretlock.Service { return k.l }
 
-// ownerKMS builds, outside the wallet, the key manager of a profile from the stored profile and its passphrase.
-func (w *world) ownerKMS(u int) kms.KeyManager {
-	if k, ok := w.owners[u]; ok {
-		return k
-	}
-
+// snapshot notes the master lock of the profile version just stored (after CreateProfile / UpdateProfile).
+func (w *world) snapshot(u int) {
 	st, err := w.inner.OpenStore("vcwallet_profiles")
 	if err != nil {
 		panic(err)
@@ -208,37 +221,65 @@ func (w *world) ownerKMS(u int) kms.KeyManager {
 
 	b, err := st.Get("vcwallet_usr_" + w.userName(u))
 	if err != nil {
-		return nil
+		return
 	}
 
-	var p struct{ ID, User, MasterLockCipher string }
+	var p struct{ MasterLockCipher string }
 	if e := json.Unmarshal(b, &p); e != nil {
 		panic(e)
 	}
 
-	ml, err := hkdf.NewMasterLock(pass(u), sha256.New, nil)
-	if err != nil {
-		panic(err)
+	w.psnap[u] = append(w.psnap[u], p.MasterLockCipher)
+}
+
+// ownerKMS builds, outside the wallet, the key managers of a profile: one per profile version (master lock of that
+// version, opened with that version's passphrase).
+func (w *world) ownerKMS(u int) []kms.KeyManager {
+	if len(w.psnap[u]) == 0 {
+		return nil
 	}
 
-	sl, err := local.NewService(bytes.NewBufferString(p.MasterLockCipher), ml)
-	if err != nil {
-		panic(err)
+	if w.ownerN[u] == len(w.psnap[u]) {
+		return w.ownersAll[u]
 	}
 
-	ks, err := kms.NewAriesProviderWrapper(w.inner)
-	if err != nil {
-		panic(err)
+	var out []kms.KeyManager
+
+	for g, cipher := range w.psnap[u] {
+		if cipher == "" {
+			continue
+		}
+
+		ml, err := hkdf.NewMasterLock(passG(u, g), sha256.New, nil)
+		if err != nil {
+			panic(err)
+		}
+
+		sl, err := local.NewService(bytes.NewBufferString(cipher), ml)
+		if err != nil {
+			panic(err)
+		}
+
+		ks, err := kms.NewAriesProviderWrapper(w.inner)
+		if err != nil {
+			panic(err)
+		}
+
+		k, err := localkms.New("local-lock://"+w.userName(u), kmsProv{ks, sl})
+		if err != nil {
+			panic(err)
+		}
+
+		out = append(out, k)
 	}
 
-	k, err := localkms.New("local-lock://"+p.User, kmsProv{ks, sl})
-	if err != nil {
-		panic(err)
+	if w.ownersAll == nil {
+		w.ownersAll = map[int][]kms.KeyManager{}
 	}
 
-	w.owners[u] = k
+	w.ownersAll[u], w.ownerN[u] = out, len(w.psnap[u])
 
-	return k
+	return out
 }
 
 func (w *world) profileID(u int) string {
@@ -315,13 +356,14 @@ func (w *world) dump(o *Obs) {
 				continue
 			}
 
-			k := w.ownerKMS(u)
-			if k == nil {
-				continue
+			for _, k := range w.ownerKMS(u) {
+				if _, err := k.Get(kid); err == nil {
+					owner = u
+					break
+				}
 			}
 
-			if _, err := k.Get(kid); err == nil {
-				owner = u
+			if owner != 0 {
 				break
 			}
 		}
@@ -454,7 +496,7 @@ func (w *world) apply(op Op) (obs Obs, touched []hx.Call) {
 		w.dump(&obs)
 	}()
 
-	if op.Kind != "create" && op.Kind != "new" && (op.I < 0 || op.I >= len(w.insts)) {
+	if op.Kind != "create" && op.Kind != "new" && op.Kind != "update" && (op.I < 0 || op.I >= len(w.insts)) {
 		return Obs{Out: "err", Err: "no such instance"}, nil
 	}
 
@@ -481,6 +523,22 @@ func (w *world) apply(op Op) (obs Obs, touched []hx.Call) {
 			return Obs{Out: "err", Err: err.Error()}, nil
 		}
 
+		w.snapshot(op.U)
+
+		return Obs{Out: "done"}, nil
+	case "update":
+		// a new passphrase (the next version's) for a local-KMS profile
+		if w.remote[op.U] > 0 {
+			return Obs{Out: "err", Err: "remote profiles are not updated by the harness"}, nil
+		}
+
+		err := wallet.UpdateProfile(w.userName(op.U), w.ctx, wallet.WithPassphrase(passG(op.U, len(w.psnap[op.U]))))
+		if err != nil {
+			return Obs{Out: "err", Err: err.Error()}, nil
+		}
+
+		w.snapshot(op.U)
+
 		return Obs{Out: "done"}, nil
 	case "new":
 		x, err := wallet.New(w.userName(op.U), w.ctx)
@@ -490,13 +548,21 @@ func (w *world) apply(op Op) (obs Obs, touched []hx.Call) {
 
 		w.insts = append(w.insts, x)
 		w.iuser = append(w.iuser, op.U)
+		w.igen = append(w.igen, len(w.psnap[op.U])-1)
 
 		return Obs{Out: "done"}, nil
 	case "open":
-		p := pass(w.iuser[op.I])
+		pg := w.igen[op.I]
+		if op.PG > 0 {
+			pg = op.PG - 1
+		}
+
+		p := passG(w.iuser[op.I], pg)
 		if op.Bad {
 			p = "wrong passphrase"
 		}
+
+		right := !op.Bad && (pg == w.igen[op.I] || w.remote[w.iuser[op.I]] > 0)
 
 		opts := []wallet.UnlockOptions{wallet.WithUnlockByPassphrase(p)}
 
@@ -521,12 +587,12 @@ func (w *world) apply(op Op) (obs Obs, touched []hx.Call) {
 				c = "err"
 			}
 
-			return Obs{Out: c, Err: err.Error()}, nil
+			return Obs{Out: c, Err: err.Error(), Pass: right}, nil
 		}
 
 		w.toks = append(w.toks, tok)
 
-		return Obs{Out: "tok", N: len(w.toks) - 1}, nil
+		return Obs{Out: "tok", N: len(w.toks) - 1, Pass: right}, nil
 	case "close":
 		if w.insts[op.I].Close() {
 			return Obs{Out: "true"}, nil
@@ -628,6 +694,8 @@ func coqOp(o Op) string {
 		return fmt.Sprintf("WClose %d%%nat", o.I)
 	case "tick":
 		return fmt.Sprintf("WTick %d", o.Dt)
+	case "update":
+		return fmt.Sprintf("WUpdate %d", o.U)
 	case "add":
 		return fmt.Sprintf("WOp %d%%nat %d (KAdd %d %d)", o.I, tok, o.C, o.V)
 	case "get":
@@ -707,6 +775,14 @@ func coqObs(o Obs, prev *Obs) string {
 func coqCase(ops []Op, obs []Obs) string {
 	a := make([]string, len(ops))
 	for i, o := range ops {
+		if o.Kind == "open" && i < len(obs) && (obs[i].Out == "tok" || obs[i].Out == "already" || obs[i].Out == "err") && o.I < 1<<20 {
+			// "passphrase right?" is the harness's reading of what was presented against the profile version the
+			// instance was made with (an Open on a missing instance keeps the generator's flag)
+			if obs[i].Err != "no such instance" {
+				o.Bad = !obs[i].Pass
+			}
+		}
+
 		a[i] = coqOp(o)
 	}
 
@@ -1007,6 +1083,9 @@ type builder struct {
 	nUsers int
 	// remote-KMS configuration (nil = all local)
 	remotes []int
+	// profile versions as the generator expects them (UpdateProfile): current version per user, version per instance
+	gen  map[int]int
+	igen []int
 }
 
 func newBuilder(nUsers int) *builder { return newBuilderR(make([]int, nUsers)) }
@@ -1015,7 +1094,7 @@ func newBuilder(nUsers int) *builder { return newBuilderR(make([]int, nUsers)) }
 func newBuilderR(remotes []int) *builder {
 	nUsers := len(remotes)
 	b := &builder{latest: map[int]int{}, open: map[int]bool{}, short: map[int]bool{}, nextV: 100, nUsers: nUsers,
-		remotes: remotes}
+		remotes: remotes, gen: map[int]int{}}
 	b.ops = setup(nUsers)
 
 	for i := range b.ops {
@@ -1026,6 +1105,7 @@ func newBuilderR(remotes []int) *builder {
 
 	for u := 1; u <= nUsers; u++ {
 		b.iuser = append(b.iuser, u)
+		b.igen = append(b.igen, 0)
 		b.latest[u] = -1
 	}
 
@@ -1111,6 +1191,34 @@ func (b *builder) event(e string) {
 	case "new":
 		b.ops = append(b.ops, Op{Kind: "new", U: u})
 		b.iuser = append(b.iuser, u)
+		b.igen = append(b.igen, b.gen[u])
+	case "update": // UpdateProfile: a new passphrase; instances made before keep the version they were made with
+		if len(b.remotes) >= u && b.remotes[u-1] > 0 {
+			break
+		}
+
+		b.ops = append(b.ops, Op{Kind: "update", U: u})
+		b.gen[u]++
+	case "recreate": // CreateProfile over an existing profile: refused, nothing changes
+		b.ops = append(b.ops, Op{Kind: "create", U: u})
+	case "opencur", "opencurlast": // Open presenting the passphrase of the CURRENT profile version (wrong for an instance made before an update)
+		if len(b.remotes) >= u && b.remotes[u-1] > 0 {
+			break
+		}
+
+		i := b.firstInst(u)
+		if e == "opencurlast" {
+			i = b.lastInst(u)
+		}
+
+		b.ops = append(b.ops, Op{Kind: "open", I: i, PG: b.gen[u] + 1, TTL: shortTTL})
+
+		if b.igen[i] == b.gen[u] && !b.open[u] {
+			b.latest[u] = b.ntok
+			b.ntok++
+			b.open[u] = true
+			b.short[u] = true
+		}
 	case "own": // own instance, own latest token: a use that re-arms the expiry
 		b.ops = append(b.ops, Op{Kind: "get", I: b.firstInst(u), Tok: b.tokOf(u), C: 1})
 	case "ownlast":
@@ -1482,6 +1590,25 @@ func main() {
 		}
 	}
 
+	// 2a. profile update (passphrase change), re-creation over an existing profile, instances made before and after an
+	//     update, opened with the passphrase of their own or of the current profile version: every sequence of
+	//     length <= 2 over the alphabet after each prefix; no token is revoked or granted by an update
+	ualpha := []string{"update1", "update2", "new1", "opens1", "opencur1", "opencurlast1", "close1", "own1", "cross2", "recreate1", "key1"}
+	for _, pre := range [][]string{{}, {"opens1"}, {"openl1", "openl2", "add1"}} {
+		enumerate(ualpha, 2, func(ev []string) {
+			hasUpd := false
+			for _, e := range ev {
+				hasUpd = hasUpd || strings.HasPrefix(e, "update") || strings.HasPrefix(e, "recreate")
+			}
+
+			if !hasUpd {
+				return
+			}
+
+			jobs = append(jobs, job{"update", build(2, append(append([]string{}, pre...), ev...), fork(), []string{"get", "add", "key", "keynomat"})})
+		})
+	}
+
 	// 2b. every method class under every token class, tied to the model
 	nFull := 70
 	if args.Tier == "thorough" {
@@ -1589,7 +1716,7 @@ func main() {
 	}
 
 	ralpha := []string{"opens", "openl", "opens", "close", "closelast", "half", "half", "full", "new", "own", "ownlast",
-		"cross", "crosskey", "add", "add", "key", "garb", "openbad"}
+		"cross", "crosskey", "add", "add", "key", "garb", "openbad", "update", "opencur", "opencurlast", "recreate"}
 
 	for i := 0; i < nRandom; i++ {
 		r := fork()
